@@ -1084,7 +1084,7 @@ func crcTableSites(p *Prog, fn *ssa.Function) []Site {
 				}
 			})
 		}
-		if len(stores) != 1 || stores[0].Fn.Name() != "init" {
+		if len(stores) != 1 || fnName(stores[0].Fn) != "init" {
 			continue
 		}
 		if mc, ok := stores[0].Instr.(*ssa.Store).Val.(*ssa.Call); ok && CalleeKey(mc) == "hash/crc32.MakeTable" {
